@@ -48,4 +48,22 @@ CLAIMS = {
                  "Deref extent, From<Kmer> for Seq order, and the KmerStorage to_bitarray/from_bitslice rows for all three storage types.",
         "note": TRUST + "kmer! is macro_rules glue over dna! (C16) and unsafe_from_seqslice (decided here); bitvec chunks/load_le trusted.",
     },
+    "C13": {
+        "technique": "table rule: Amino codes and alts (from the derived decoders' MIR) vs NCBI table 1 under the documented packing, all 64 codons + guard row for to_amino",
+        "level": "Exhaustive over the finite domain at symbol level: all 64 codons pack (Dna codes, Lsb0, 2 bits each) to a 6-bit pattern whose Amino decoding equals "
+                 "NCBI table 1; to_amino asserts len==3 then returns unsafe_from_bits(load_le::<u8>(content)). Offset independence rests on C03/C04 rows.",
+        "note": TRUST + "The value of load_le on a word-straddling codon is bitvec's (trusted).",
+    },
+    "C14": {
+        "technique": "row-table semantics: 29 rustc-evaluated IUPAC rows x verified first-match search vs NCBI table 1 over all 16^3 codons; inverse-map shape + per-amino semantics",
+        "level": "Establishes the search's shape (length test, ordered first-match with contains, error variants) from MIR, reads the rows from the evaluated statics, then "
+                 "decides soundness and completeness for all 3375 gap-free codons and the exactness of reverse translation for all 21 amino acids by finite enumeration.",
+        "note": TRUST + "contains = per-position subset relies on C12 rows; HashMap/OnceLock trusted.",
+    },
+    "C15": {
+        "technique": "order-insensitive inverse-map shape (per-key state machine absent->Some, present->None) + variant flow of lookups",
+        "level": "Decides that from_map's inverse depends only on preimage counts (not on iteration order), that try_to_amino is get(codon) with InvalidCodon(codon) on miss, "
+                 "and the exact Some(Some)/Some(None)/None -> Ok/AmbiguousCodon/InvalidAmino flow of try_to_codon.",
+        "note": TRUST + "HashMap semantics trusted; lookup by slice relies on C02's Borrow/Hash/Eq rows.",
+    },
 }
